@@ -37,6 +37,22 @@ struct Obs {
     dropped: Vec<u32>,
 }
 
+/// The key type the limiter sees: equality distinguishes the keys, the hash does not (every
+/// key hashes alike). A map keyed by such keys is still a correct map; a limiter that
+/// identifies keys by their hash is not (seeded change C13d).
+#[derive(Clone, Copy, Debug, PartialEq, Eq)]
+pub struct CKey(pub u8);
+impl Hash for CKey {
+    fn hash<H: Hasher>(&self, state: &mut H) {
+        0u8.hash(state);
+    }
+}
+impl std::fmt::Display for CKey {
+    fn fmt(&self, f: &mut std::fmt::Formatter<'_>) -> std::fmt::Result {
+        write!(f, "{}", self.0)
+    }
+}
+
 struct KeyedTransport {
     key: u8,
     seq: u32,
@@ -108,7 +124,7 @@ pub fn replay(n: u32, hist: &[Ev]) -> Outcome {
         q: q.clone(),
         obs: obs.clone(),
     };
-    let filter = listener.max_channels_per_key(n, |c: &Chan| c.transport().key);
+    let filter = listener.max_channels_per_key(n, |c: &Chan| CKey(c.transport().key));
     let filter = Rc::new(RefCell::new(Box::pin(filter)));
     // yielded channels held by the application: (seq, key, channel)
     type Held = Vec<Option<(u32, u8, Box<dyn std::any::Any>)>>;
@@ -410,7 +426,7 @@ pub fn run_c13(tier: Tier) -> i32 {
             "traces_validated_against_impl": total_hist,
             "evaluations": total_hist,
             "distinct_nontrivial": nontrivial,
-            "rule": "breadth-first over ALL event histories up to the depth (alphabet: Arrive(key a), Arrive(key b), Poll of the limited stream, Close(i) of a held channel, CloseNested(i) = close with one listener poll at the yield point inside the tracker's drop); every history is replayed from scratch on a fresh real MaxChannelsPerKey and compared with a per-key counter at every dequeue; `states` counts distinct (alive multiset, pending arrivals, shed count) fingerprints, no merging is used to prune; non-trivial = a close adjacent to a poll/arrival or a nested poll that fired",
+            "rule": "breadth-first over ALL event histories up to the depth (alphabet: Arrive(key a), Arrive(key b) - two keys that are unequal but hash alike -, Poll of the limited stream, Close(i) of a held channel, CloseNested(i) = close with one listener poll at the yield point inside the tracker's drop); every history is replayed from scratch on a fresh real MaxChannelsPerKey and compared with a per-key counter at every dequeue; `states` counts distinct (alive multiset, pending arrivals, shed count) fingerprints, no merging is used to prune; non-trivial = a close adjacent to a poll/arrival or a nested poll that fired",
             "samples": samples,
             "exhaustive": !cut && machinery.is_empty(),
             "depth_completed": {"n1": completed_depth[0], "n2": completed_depth[1]},
